@@ -18,8 +18,9 @@ class Problem:
     """A drawn clustering problem: data, trajectories, metric, stopping rule."""
 
     def __init__(self, ctx, max_ranks=8, max_traj=24, max_frames=60, max_len=9, want_ranks=True, dtype=None,
-                 metric=None):
+                 metric=None, allow_rmsd=False):
         t = ctx.tape
+        self.atoms = None
         self.N = t.irange(1, max_ranks) if want_ranks else 1
         n_traj = self.N + t.draw(min(2 * self.N + 1, max_traj - self.N + 1))
         n_traj = max(n_traj, 1)
@@ -34,8 +35,25 @@ class Problem:
         self.metric_name = metric or t.choice(('euclidean', 'euclidean', 'manhattan', 'callable', 'euclidean', 'manhattan', 'callable',
                                                'callable_reuse'))
         self.jitter = not t.flag(1, 8)
-        self.X = M.gen_points(t, self.n, self.dim, self.dtype, self.jitter)
         self.scale = 1.0
+        if allow_rmsd and dtype is None and metric is None and self.n >= 3 and t.flag(1, 8):
+            # the library's main use: molecular trajectories compared by RMSD after optimal superposition
+            self.metric_name = 'rmsd'
+            self.rmsd_as_callable = t.flag(1, 3)
+            self.dtype = 'float32'
+            self.atoms = self.dim = t.irange(4, 9)
+            if self.n > 40:
+                # the reference is quadratic in the number of frames
+                while sum(lengths) > 40 and max(lengths) > 1:
+                    lengths[int(np.argmax(lengths))] -= 1
+                self.n = int(sum(lengths))
+            rs = np.random.RandomState(t.draw(2 ** 31 - 1))
+            self.X = rs.rand(self.n, self.atoms, 3).astype(np.float32)          # nanometres
+            self.model_metric = M.METRICS['rmsd']
+            self.l2g = M.local_to_global(lengths, self.N)
+            ctx.hit('rmsd_trajectory_data')
+            return
+        self.X = M.gen_points(t, self.n, self.dim, self.dtype, self.jitter)
         if np.dtype(self.dtype).kind == 'f' and t.flag(1, 10):
             # the same geometry in other units (metres instead of nanometres, ...)
             self.scale = t.choice((1e-9, 1e-4, 1e5))
@@ -47,13 +65,55 @@ class Problem:
         self.l2g = M.local_to_global(lengths, self.N)
 
     def tie_tol(self):
+        if self.metric_name == 'rmsd':
+            return 1e-5
         return 1e-6 if np.dtype(self.dtype) == np.float32 else 1e-9
 
     def cut_tol(self):
+        if self.metric_name == 'rmsd':
+            return 1e-5
         return 4e-6 if np.dtype(self.dtype) == np.float32 else 1e-11
 
+    def noise(self, d):
+        """absolute uncertainty of a reported distance beyond the relative tolerance (zero except for RMSD)"""
+        return M.noise_for(self.metric_name)(d)
+
     def sut_metric(self):
+        if self.metric_name == 'rmsd':
+            import mdtraj as md
+            return md.rmsd if self.rmsd_as_callable else 'rmsd'
         return M.sut_metric(self.metric_name)
+
+    def wrap(self, arr):
+        """the object the library is given for these coordinates: the array itself, or an md.Trajectory of them"""
+        if self.metric_name != 'rmsd':
+            return arr
+        return M.as_traj(arr)
+
+    def unwrap(self, obj):
+        return np.asarray(obj.xyz) if hasattr(obj, 'xyz') else obj
+
+    def same_dist(self, a, b):
+        """are two reported distance arrays the same values (bit for bit, except for RMSD whose last bits depend on the batch)"""
+        a = np.asarray(a, dtype=float)
+        b = np.asarray(b, dtype=float)
+        if a.shape != b.shape:
+            return False
+        if self.metric_name != 'rmsd':
+            return np.array_equal(a, b)
+        return bool(np.all(np.abs(a - b) <= 4e-6 * np.maximum(np.abs(a), 1.0) + self.noise(np.minimum(a, b))))
+
+    def data_unchanged(self, now, snap):
+        """the caller's data after a call.  mdtraj's rmsd itself moves every frame it is given to its centroid, in place
+        (its documented way of working), so for trajectories only the centred coordinates are compared"""
+        now = self.unwrap(now)
+        if self.metric_name != 'rmsd':
+            return same(now, snap)
+        a = np.asarray(now, dtype=np.float64)
+        b = np.asarray(snap, dtype=np.float64)
+        if a.shape != b.shape:
+            return False
+        return bool(np.allclose(a - a.mean(axis=1, keepdims=True), b - b.mean(axis=1, keepdims=True), rtol=0, atol=4e-6))
 
     def local(self, r):
         return np.ascontiguousarray(self.X[self.l2g[r]]).copy()
@@ -65,7 +125,7 @@ class Problem:
         strictly between two consecutive radii of the greedy replay (or far
         below / above all of them)."""
         t = ctx.tape
-        kmax = min(max_k, self.n)
+        kmax = min(max_k, self.n if self.metric_name != 'rmsd' else self.n - 1)     # RMSD: never down to 'every frame is a centre', where only rounding noise is left
         full, _ = M.greedy_run(self.X, self.model_metric, kmax, 0, tol=self.tie_tol())
         mode = t.draw(4)          # 0: k only, 1: cutoff only, 2: both, 3: both with None/inf spelling
         k = t.irange(1, kmax)
@@ -99,7 +159,7 @@ class Problem:
     def describe(self):
         return dict(ranks=self.N, lengths=list(map(int, self.lengths)), dim=self.dim, dtype=self.dtype,
                     metric=self.metric_name, jitter=self.jitter, scale=self.scale,
-                    X=[[float(v) for v in row] for row in self.X[:12]] + (['...'] if self.n > 12 else []))
+                    X=[[float(v) for v in np.asarray(row).reshape(-1)] for row in self.X[:12]] + (['...'] if self.n > 12 else []))
 
 
 def kc_kwargs(k, cutoff, spelling=0):
